@@ -175,6 +175,54 @@ def semScatter (I : Interp V) (S : Sched V) : Seqs → List (List V) → List (L
   | .cons s r, shares => semSeq I S s [shares.headD []] ++ semScatter I S r shares.tail
 end
 
+/-! ## joins: what the kernel hands to `join.New`, and what `join.New` does with the directions -/
+
+structure JoinArgs (V : Type) where
+  left : List V
+  right : List V
+  lkey : Expr
+  rkey : Expr
+  ldir : Int
+  rdir : Int
+
+/-- `Builder.compile` for a `dag.Join`: for a `right` join the parents, the key expressions and
+    the declared directions are swapped — each swap is read from the regenerated statement list of
+    the `case "right":` clause (compiler/kernel/op.go). -/
+def kernelJoinArgs (style : String) (L R : List V) (lk rk : Expr) (ld rd : Int) : JoinArgs V :=
+  if style == "right" then
+    let sw (s : String) : Bool := Zed.Generated.C07.rightJoinSwaps.contains s
+    let parents := sw "leftParent, rightParent = rightParent, leftParent"
+    let keys := sw "leftKey, rightKey = rightKey, leftKey"
+    let dirs := sw "leftDir, rightDir = rightDir, leftDir"
+    { left := if parents then R else L, right := if parents then L else R
+      lkey := if keys then rk else lk, rkey := if keys then lk else rk
+      ldir := if dirs then rd else ld, rdir := if dirs then ld else rd }
+  else { left := L, right := R, lkey := lk, rkey := rk, ldir := ld, rdir := rd }
+
+/-- the common order `join.New` picks: that of the left side if declared, else of the right. -/
+def joinOrder (ld rd : Int) : Desc :=
+  if ld ≠ 0 then decide (ld < 0) else if rd ≠ 0 then decide (rd < 0) else false
+
+/-- `Direction.HasOrder`. -/
+def hasOrder (d : Int) (o : Desc) : Bool := (decide (d > 0) && !o) || (decide (d < 0) && o)
+
+/-- the comparator of the sort `join.New` inserts in front of a side. -/
+def joinSortCmp (I : Interp V) (key : Expr) (o : Desc) : V → V → Ordering := sortCmp I [⟨key, o⟩] false false
+
+/-- a side as the merge join reads it: sorted by the join unless declared in the common order. -/
+def joinSide (I : Interp V) (key : Expr) (dir : Int) (o : Desc) (xs : List V) : List V :=
+  if hasOrder dir o then xs else xs.mergeSort (leOf (joinSortCmp I key o))
+
+/-- `join.New` followed by the merge join proper (`J`, a parameter: the merge of two sides that
+    are sorted in order `o`). -/
+def joinNew (I : Interp V) (J : Desc → List V → List V → List V) (a : JoinArgs V) : List V :=
+  let o := joinOrder a.ldir a.rdir
+  J o (joinSide I a.lkey a.ldir o a.left) (joinSide I a.rkey a.rdir o a.right)
+
+def kernelJoin (I : Interp V) (J : Desc → List V → List V → List V) (style : String) (L R : List V)
+    (lk rk : Expr) (ld rd : Int) : List V :=
+  joinNew I J (kernelJoinArgs style L R lk rk ld rd)
+
 /-- No predicate evaluates to an error value the applier would emit.  (With such values
     `where A | where B` and `where A and B` differ, and so do a filter operator and a filter
     pushed into the scanner — both are recorded defects of the current tree.) -/
